@@ -12,7 +12,7 @@ WALL_CAP = {"quick": 150, "thorough": 3000}
 CHUNK = 100
 RULE = ("one case = a prior history on a simulator+model (never started / k steps "
         "/ paused by a handler calling stop / bounded run / ended / paused by an "
-        "injected handler fault / refused start / given up by a handler that calls cleanup() "
+        "injected handler fault / refused start / paused and ended by end_replication() / given up by a handler that calls cleanup() "
         "and schedules on / initialize attempted from a "
         "handler while running / ended and re-initialised by a polling caller the moment ENDED is "
         "published, with the eager-poller fault) followed by initialize(model, replication) again "
@@ -37,6 +37,7 @@ ASSUMPTIONS = ["re-initialisation is issued at quiescence (initialize while the 
 KINDS = ["counter", "tally", "wtally", "persistent"]
 HARNESS_ACTIONS = ("settle", "poll", "poll_stopped", "sleep", "drain")
 PRIORS = ["never", "steps", "pause", "bounded", "ended", "fault", "refused", "cleanup_from_handler",
+          "ended_by_command",
           "init_from_handler", "init_from_handler_after_stop", "ended_polling",
           "ended_polling"]
 
@@ -72,6 +73,8 @@ def generate(seed, tier, idx=0):
             "sized_model": rng.random() < 0.1}
     if case_plain:
         case["plain_stats"] = case_plain
+    if rng.random() < 0.25:
+        case["held_list"] = True
     if rng.random() < 0.15 and all(sp["kind"] != "persistent" for sp in stats):
         # (an old persistent would be fed timestamps of the new replication)
         case["long_lived_producer"] = True
@@ -99,7 +102,7 @@ def generate(seed, tier, idx=0):
     ref = devscommon.make_ref(case)
     ref.initialize()
     cmds = [["initialize"], ["settle"]]
-    if prior == "pause":
+    if prior in ("pause", "ended_by_command"):
         full = devscommon.make_ref(case)
         full.initialize()
         full.run(full.end, True)
@@ -118,6 +121,11 @@ def generate(seed, tier, idx=0):
                 apply(["step"])
     elif prior in ("pause", "fault", "init_from_handler", "init_from_handler_after_stop"):
         apply(["start"])
+    elif prior == "ended_by_command":
+        # paused by a handler, then ended by the caller with end_replication()
+        apply(["start"])
+        if ref.run_state == "STOPPED" and ref.rep_state == "STARTED":
+            apply(["end_replication"])
     elif prior == "cleanup_from_handler":
         if rng.random() < 0.5:
             apply(["start"])
